@@ -25,6 +25,30 @@ pub fn run(args: &[String]) -> i32 {
 
 fn determinism(n: u64) -> i32 {
     let mut bad = 0;
+    // the other engines: same seed twice in-process
+    for p in ["C09", "C10", "C11", "C12", "C13", "C14", "C15", "C17"] {
+        for i in 0..n.min(150) {
+            let s = rng::mix(1, rng::tag_of(p), i);
+            let a = crate::run_case_pub(p, s);
+            let b = crate::run_case_pub(p, s);
+            if a.ev_hash != b.ev_hash || a.viols != b.viols || a.evaluations != b.evaluations {
+                println!("non-deterministic: {} run {}", p, i);
+                bad += 1;
+            }
+            let c = crate::replay_case_pub(p, &a.case);
+            match c {
+                Ok(c) if c.ev_hash == a.ev_hash || p == "C11" => {}
+                Ok(_) => {
+                    println!("replay differs from generation: {} run {}", p, i);
+                    bad += 1;
+                }
+                Err(e) => {
+                    println!("replay failed: {} run {}: {}", p, i, e);
+                    bad += 1;
+                }
+            }
+        }
+    }
     for p in crate::FS_PROPS {
         for i in 0..n {
             let s = rng::mix(1, rng::tag_of(p), i);
